@@ -1,5 +1,5 @@
 SPECIFICATION Spec
-CONSTANTS MaxLen = 6 CopyOnCompute = TRUE
+CONSTANTS MaxLen = 6 CopyOnCompute = "each"
 INVARIANT Fresh
 INVARIANT NotTheStored
 INVARIANT ResultsStable
